@@ -523,6 +523,24 @@ def fam_kinds():
           s["body"]["c"][0]["c"][0]["c"][0]["sp"] = sp_p
           s["body"]["c"][0]["c"][0]["c"][0]["c"] = [text("  a  b \n c ")]
           specs.append(s)
+  # xml:space of siblings (an attribute is written where the value differs from the parent's, whatever the sibling before has):
+  # every assignment of default / preserve to three adjacent spans under a default and under a preserved paragraph, and a preserved
+  # region followed by a preserved body
+  for psp in ("default", "preserve"):
+    for a in ("default", "preserve"):
+      for b in ("default", "preserve"):
+        for c3 in ("default", "preserve"):
+          kids = [node("span", [text(f" {k}  {k} ")], id=f"s{j}", sp=v) for j, (k, v) in enumerate(zip("xyz", (a, b, c3)))]
+          for k_ in kids:
+            k_["lang"] = "en"
+          p_ = node("p", kids, id="p", sp=psp)
+          p_["lang"] = "en"
+          s = doc_spec(node("body", [node("div", [p_], id="d", sp=psp)], id="b", sp=psp), [{"id": "r1", "sp": "preserve" if a == "preserve" else None, "lang": "en"}])
+          s["lang"] = "en"
+          for n_ in (s["body"], s["body"]["c"][0]):
+            n_["lang"] = "en"
+          s["body"]["c"][0]["c"][0]["r"] = "r1"
+          specs.append(s)
   prod = Product([range(len(specs)), CONFIGS_SMALL])
 
   def dec(i):
@@ -533,7 +551,8 @@ def fam_kinds():
 
 def _time_values(fr):
   """values on, between and around units of both syntaxes"""
-  vals = [None, F(0), F(1, 1000), F(1), F(3600), F(1, 2000), F(12345, 10000), F(86400), F(91800) + F(1, 2)]     # the last two: 24 h and beyond
+  vals = [None, F(0), F(1, 1000), F(1), F(3600), F(1, 2000), F(12345, 10000), F(86400), F(91800) + F(1, 2),     # the last two: 24 h and beyond
+          F(1199996, 10000), F(35999996, 10000)]      # less than half a millisecond below a whole minute / hour: the rounding carries into every field
   if fr is not None:
     vals += [1 / fr, 7 / fr, (F(7) + F(1, 2)) / fr, 100 / fr + F(1, 1000)]
   return vals
